@@ -34,11 +34,13 @@ def main():
         return selftest.run()
     if cmd == "setup":
         from vlib import build
-        vs = ["asan", "asan-small", "asan++", "plain", "vf", "vf-plain", "nohook",
+        vs = ["asan", "asan-small", "asan++", "asan++-small", "plain", "vf", "vf-plain", "nohook",
               "cont", "cont-small", "cont++", "cont++-small"]
         build.build_many(vs)
         print("setup: built", " ".join(vs))
-        return 0
+        from vlib import selftest, ansic
+        ansic.ensure()
+        return selftest.run()
     print(__doc__)
     return 2
 
